@@ -27,7 +27,6 @@ MANIFEST = dict(
 KNOWN_D2 = "EmptyMatchAtEndOfUnterminatedLastLine"
 KNOWN_MLMAX = "MultiLineMaxCountSummary"
 KNOWN_MLOEMPTY = "MultiLineOnlyMatchingDropsEmptyMatches"
-KNOWN_CRLF = "CrlfLineReportedWithoutMatchInContent"
 
 LINE_PATTERNS = [
     "a", "b+", "$", "^", r"\b", r"\B", "x*", "a|$", "c|$", "^$", r"\w+", "[ab]", "a.", ".", r"\s", "(?:ab)?", "b$",
@@ -245,12 +244,7 @@ def check_relations(ctx, c, outs, where):
         d2 = (not invert) and any(len(s) == 0 and not data_bytes(l).endswith(b"\n") for l, s in je["matches"])
         nosub_terminated = (not invert) and any(len(s) == 0 and data_bytes(l).endswith(b"\n") for l, s in je["matches"])
         if nosub_terminated:
-            if fl.get("crlf") and not multi:
-                # D1 / D9 (property C01): the searcher reports a line in CRLF mode whose stripped content the
-                # matcher does not match; the printers then find nothing in it
-                ctx.known(KNOWN_CRLF, "%s pattern=%r file=%r flags=%r" % (where, c["pattern"], data, fl))
-            else:
-                v("a reported matching line has no submatch although it is terminated", file=f)
+            v("a reported matching line has no submatch although it is terminated", file=f)
         if d2:
             ctx.known(KNOWN_D2, "%s pattern=%r file=%r flags=%r" % (where, c["pattern"], data, fl))
         mlmax = multi and mx is not None and not invert
